@@ -9,6 +9,8 @@ package http
 //   replay   – A closed and reopened with a forced rebuild: the log replayed later,
 //   install  – A snapshots (log truncated) and a new node C joins: snapshot install + suffix,
 //   recover  – A shut down, peers file written, reopened: RecoverNode's replay,
+// (every second program: live apply on A happens with CDC enabled and its consumer stalled on
+// a 1-2 slot channel; the other paths run without CDC)
 // and compared pairwise (typeof/quote of every column of every row). In the thorough
 // tier the test sleeps across a second boundary between the paths.
 // The Lean model `converge` is compared on which endpoints rewrite (`endpoint …`).
@@ -213,7 +215,11 @@ func c01JSON(stmts []string, r *vfRng, nondetPct int) string {
 
 // ---- one program through all four paths --------------------------------------------
 
-func c01Program(t *testing.T, rep *vfReport, r *vfRng, nReq int, nondetEndpoint string) {
+// cdcCap > 0: node A applies live with change data capture enabled, its events going into a
+// channel of that capacity which NOBODY reads (a stalled consumer): full after cdcCap
+// row-changing commits. The replay / install / recover paths run without CDC. What an observer
+// of commits does with its events must not decide what the node holds.
+func c01Program(t *testing.T, rep *vfReport, r *vfRng, nReq int, nondetEndpoint string, cdcCap int) {
 	dir, err := os.MkdirTemp(c01TempRoot(), "verif-c01-")
 	if err != nil {
 		t.Fatal(err)
@@ -231,6 +237,16 @@ func c01Program(t *testing.T, rep *vfReport, r *vfRng, nReq int, nondetEndpoint 
 	c01Ready(t, a.st)
 	a.startHTTP()
 	var hist []string
+	cause := "nondeterministic-sql-via-" + nondetEndpoint
+	if cdcCap > 0 {
+		stalled := make(chan *command.CDCIndexedEventGroup, cdcCap)
+		if err := a.st.EnableCDC(stalled, nil, false); err != nil {
+			t.Fatalf("enable cdc: %v", err)
+		}
+		hist = append(hist, fmt.Sprintf("[live node: CDC enabled, consumer stalled, channel capacity %d]", cdcCap))
+		cause = "stalled-cdc-consumer-on-live-node(or-" + cause + ")"
+		rep.Count("program-live-node-with-stalled-cdc-consumer")
+	}
 	send := func(ep, path, ct, body string) {
 		code, resp := a.post(path, ct, body)
 		hist = append(hist, ep+" "+body)
@@ -297,7 +313,7 @@ func c01Program(t *testing.T, rep *vfReport, r *vfRng, nReq int, nondetEndpoint 
 			rep.Count("path-" + path + "-equals-live")
 			return
 		}
-		sig := "replicas-diverge:nondeterministic-sql-via-" + nondetEndpoint + ":" + path + "-vs-live"
+		sig := "replicas-diverge:" + cause + ":" + path + "-vs-live"
 		rep.Fail(sig, fmt.Sprintf("program %v\nlive:\n%s\n%s:\n%s", hist, c01Clip(live), path, c01Clip(got)),
 			map[string]interface{}{"program": hist, "path": path, "live": live, "other": got})
 	}
@@ -317,6 +333,18 @@ func c01Program(t *testing.T, rep *vfReport, r *vfRng, nReq int, nondetEndpoint 
 	}
 	c01Ready(t, a.st)
 	report("replay", c01Table(a.st))
+	if cdcCap > 0 {
+		// model: observed live apply (never-drained channel of this capacity) vs plain apply
+		var ss []string
+		for i := 1; i <= nReq+1; i++ {
+			ss = append(ss, fmt.Sprintf("p:%d:%d", i, i))
+		}
+		verdict := "same"
+		if results["replay"] != live {
+			verdict = "differ"
+		}
+		rep.vfCompare("converge", []string{fmt.Sprintf("observed %d %s", cdcCap, strings.Join(ss, ","))}, []string{verdict}, nil)
+	}
 	// From here on A's own table is the reference for the snapshot-based paths only if it
 	// still equals live; otherwise they would just repeat the same divergence.
 	if results["replay"] == live {
@@ -466,7 +494,11 @@ func TestVerifC01(t *testing.T) {
 	classes := []string{"execute", "queued", "request", "loadtext", "execute", "request", "queued"}
 	n := vfScale(5, 56)
 	for p := 0; p < n; p++ {
-		c01Program(t, rep, r, vfScale(5, 10), classes[p%len(classes)])
+		cdcCap := 0
+		if p%2 == 1 { // every second program: live apply observed by a stalled CDC consumer
+			cdcCap = 1 + r.Intn(2)
+		}
+		c01Program(t, rep, r, vfScale(5, 10), classes[p%len(classes)], cdcCap)
 	}
 }
 
